@@ -1021,3 +1021,94 @@ Proof.
   - by eapply assign_relabel_correct.
   - by eapply assign_buffer_correct.
 Qed.
+
+(* ------------------------------------------------------------------ assignment steps refine on reserved names *)
+Lemma assign_buffer_refines k st lv e st1 r st' :
+  c_cond k st e = Ok (st1, r) → r ∉ st1.2 → assignment k st1 lv r = Ok st' →
+  lv ∉ [k_t0 k; k_t1 k; k_tx k] → lv ∈ k_rsv k →
+  (∀ i, st.1 !! lv = Some i → n_fi i = ∅ ∧ is_free i = true) →
+  ∀ v, consistent st'.1 v → consistent st.1 v.
+Proof.
+  intros Hc Hr Ha Hlv Hrsv Hfree v Hv.
+  destruct (compile_cond_ok e k st st1 r Hc) as [Hs _]. destruct (fr2_cond _ _ _ _ _ Hc) as [_ Hnew].
+  unfold assignment in Ha. rewrite bool_decide_eq_false_2 in Ha by done. rewrite bool_decide_eq_false_2 in Ha by done.
+  apply mbind_ok in Ha as ([g' nm] & H1 & E). injection E as <-. simpl in *.
+  unfold add_node, lift in H1. destruct (add_g st1.1 lv Buf [r] [] rd_flags) as [[g2 o] nm2] eqn:Eg. destruct o; [|discriminate].
+  injection H1 as <- <-. apply add_g_gen in Eg as (_ & Hl & Hx); [|done].
+  (* lv was absent or a free node without fan-in *)
+  assert (Hlv1 : ∀ i, st1.1 !! lv = Some i → n_fi i = ∅ ∧ is_free i = true).
+  { intros i Hi. destruct (st.1 !! lv) as [j|] eqn:Ej.
+    - pose proof (lookup_weaken _ _ _ _ Ej Hs). assert (j = i) as -> by congruence. eauto.
+    - destruct (Hnew lv i Hi Ej) as [?| ->]; [done|]. done. }
+  assert (Hfi : fanin st1.1 lv = ∅).
+  { unfold fanin. destruct (st1.1 !! lv) as [i|] eqn:Ei; [|done]. simpl. by destruct (Hlv1 i eq_refl). }
+  rewrite Hfi in Hl.
+  assert (Hc1 : consistent st1.1 v).
+  { intros x i Hi. destruct (decide (x = lv)) as [->|Hne].
+    - unfold node_ok. destruct (Hlv1 i Hi) as [_ ->]. done.
+    - destruct (Hx x Hne) as [E|(E & _)]; [|congruence]. apply Hv. by rewrite E. }
+  by eapply consistent_mono.
+Qed.
+
+Lemma assign_relabel_refines k st lv e st1 r st' :
+  c_cond k st e = Ok (st1, r) → r ∈ st1.2 → assignment k st1 lv r = Ok st' →
+  gst k st → (list_to_set (ids_cond e) : gset string) ⊆ k_rsv k →
+  lv ∉ [k_t0 k; k_t1 k; k_tx k] → lv ∈ k_rsv k →
+  (∀ i, st.1 !! lv = Some i → n_fi i = ∅ ∧ is_free i = true) →
+  ∀ v, consistent st'.1 v → ∃ v1, consistent st.1 v1 ∧ (∀ s, s ∈ k_rsv k → v1 s = v s) ∧ v1 (k_tx k) = v (k_tx k).
+Proof.
+  intros Hc Hr Ha G Hid Hlv Hrsv Hfree v Hv.
+  destruct (compile_cond_ok e k st st1 r Hc) as [Hs _]. destruct (fr2_cond _ _ _ _ _ Hc) as [_ Hnew].
+  destruct (frg_cond _ _ _ _ _ Hc) as [_ G1]. specialize (G1 G).
+  destruct (result_cond _ _ _ _ _ Hc G Hid) as [_ HB]. destruct (HB Hr) as (Hrn & t & fi & Hl & Htt & Hfi & Hrfi & Hnofo).
+  unfold assignment in Ha. rewrite bool_decide_eq_false_2 in Ha by done. rewrite bool_decide_eq_true_2 in Ha by done.
+  injection Ha as <-. simpl in *.
+  assert (Hrr : r ∉ k_rsv k). { destruct G1 as (_ & _ & _ & Hd). intros ?. by apply (Hd r). }
+  assert (Hne : r ≠ lv) by (intros ->; done).
+  assert (Hlv1 : ∀ i, st1.1 !! lv = Some i → n_fi i = ∅ ∧ is_free i = true).
+  { intros i Hi. destruct (st.1 !! lv) as [j|] eqn:Ej.
+    - pose proof (lookup_weaken _ _ _ _ Ej Hs). assert (j = i) as -> by congruence. eauto.
+    - destruct (Hnew lv i Hi Ej) as [?| ->]; [done|]. done. }
+  (* the graph after the relabel, node by node *)
+  assert (Hsub : ∀ i, r ∉ n_fi i → upd_fi (λ s : gset string, if bool_decide (r ∈ s) then {[lv]} ∪ s ∖ {[r]} else s) i = i).
+  { intros i Hi. apply upd_fi_id. by rewrite bool_decide_eq_false_2. }
+  assert (Hg' : ∀ x, x ≠ lv → x ≠ r → relabel_g st1.1 r lv !! x = st1.1 !! x).
+  { intros x H1 H2. unfold relabel_g. rewrite Hl. rewrite bool_decide_eq_false_2 by done.
+    rewrite lookup_insert_ne by done. rewrite lookup_fmap, lookup_delete_ne by done.
+    destruct (st1.1 !! x) as [i|] eqn:E; [|done]. simpl. f_equal. apply Hsub. by eapply Hnofo. }
+  assert (Hglv : relabel_g st1.1 r lv !! lv = Some (mk_node t false (list_to_set fi))).
+  { unfold relabel_g. rewrite Hl. rewrite bool_decide_eq_false_2 by done. rewrite lookup_insert. f_equal. unfold mk_node. simpl. f_equal.
+    rewrite bool_decide_eq_false_2 by (by rewrite elem_of_list_to_set).
+    assert (fanin (upd_fi (λ s : gset string, if bool_decide (r ∈ s) then {[lv]} ∪ s ∖ {[r]} else s) <$> delete r st1.1) lv = ∅) as ->; [|set_solver].
+    unfold fanin. rewrite lookup_fmap, lookup_delete_ne by done. destruct (st1.1 !! lv) as [i|] eqn:E; [|done]. simpl.
+    destruct (Hlv1 i eq_refl) as [E0 _]. rewrite E0. by rewrite bool_decide_eq_false_2 by set_solver. }
+  set (v' := λ x, if bool_decide (x = r) then v lv else v x).
+  assert (Hv'x : ∀ x, x ≠ r → v' x = v x) by (intros x Hx; unfold v'; by rewrite bool_decide_eq_false_2).
+  assert (Hc1 : consistent st1.1 v').
+  { intros x i Hi. destruct (decide (x = r)) as [->|Hxr].
+    - rewrite Hl in Hi. injection Hi as <-. pose proof (Hv lv _ Hglv) as Hn.
+      eapply (node_ok_ext v v' lv r); [unfold v'; by rewrite bool_decide_eq_true_2| |exact Hn].
+      simpl. intros f Hf. rewrite Hv'x; [done|]. intros ->. by apply elem_of_list_to_set in Hf.
+    - destruct (decide (x = lv)) as [->|Hxl].
+      + unfold node_ok. destruct (Hlv1 i Hi) as [_ ->]. done.
+      + eapply (node_ok_ext v v' x x); [by rewrite Hv'x| |apply Hv; by rewrite Hg'].
+        intros f Hf. rewrite Hv'x; [done|]. intros ->. by eapply Hnofo. }
+  assert (Htx : k_tx k ≠ r). { intros <-. destruct G as (_ & Hti & _). assert (k_tx k ∈ dom st.1) by (apply Hti; unfold ties; set_solver).
+    apply elem_of_dom in H as [? ?]. congruence. }
+  exists v'. split; [by eapply consistent_mono|]. split; [|by apply Hv'x].
+  intros s Hs'. apply Hv'x. intros ->. done.
+Qed.
+(* every assignment step refines on the reserved names: a consistent valuation of the new graph yields one of the old graph
+   with the same values on all identifiers of the text and on tie_x *)
+Theorem assign_refines k st lv e st' :
+  c_assign k st (lv, e) = Ok st' →
+  gst k st → (list_to_set (ids_cond e) : gset string) ⊆ k_rsv k →
+  lv ∉ [k_t0 k; k_t1 k; k_tx k] → lv ∈ k_rsv k →
+  (∀ i, st.1 !! lv = Some i → n_fi i = ∅ ∧ is_free i = true) →
+  ∀ v, consistent st'.1 v → ∃ v1, consistent st.1 v1 ∧ (∀ s, s ∈ k_rsv k → v1 s = v s) ∧ v1 (k_tx k) = v (k_tx k).
+Proof.
+  unfold c_assign. simpl. intros H G Hid Hlv Hrsv Hfree v Hv. apply mbind_ok in H as ([st1 r] & H1 & H2). simpl in H2.
+  destruct (decide (r ∈ st1.2)).
+  - by eapply assign_relabel_refines.
+  - exists v. split; [by eapply assign_buffer_refines|done].
+Qed.
